@@ -257,7 +257,9 @@ func vhTruncFunds(pfx string, light bool) {
 }
 
 // VH_C07_resubmit: after a truncation, moved vertices and transactions are still refused.
-func VH_C07_resubmit() {
+func VH_C07_resubmit() { vhTruncResubmit("C07/resubmit") }
+
+func vhTruncResubmit(pfx string) {
 	l := vhChain(3)
 	verifrt.Assume(l.recs[0].v.Transaction.IsSpiceTransfer())
 	l.vhSetDepth(2) // chain G,1,2,3: walk from 3 visits 2,1,G: cut = 1, moved = {G}; with d=1 nothing moves
@@ -265,7 +267,7 @@ func VH_C07_resubmit() {
 		panic("vh: truncate: " + err.Error())
 	}
 	_, e := l.ab.dag.GetVertex(string(l.recs[0].v.Hash[:]))
-	verifrt.Assert(e != nil, "C07/resubmit/genesis-moved")
+	verifrt.Assert(e != nil, pfx+"/genesis-moved")
 	kind := verifrt.Choose("kind", 3)
 	switch kind {
 	case 0: // the moved vertex again
@@ -273,26 +275,26 @@ func VH_C07_resubmit() {
 		c.SignerPublicAddress = vhPeerAddr
 		c.Transaction.IssuerAddress = "A" // not self-sealed, so the entry guards are passed
 		err := l.ab.AddLeaf(context.Background(), &c)
-		if err != nil {
+		if err != nil && verifrt.Native() {
 			verifrt.Trace("addleaf moved vertex: " + err.Error())
 		}
-		verifrt.Assert(err == ErrLeafAlreadyExists, "C07/resubmit/moved-vertex-refused")
+		verifrt.Assert(err == ErrLeafAlreadyExists, pfx+"/moved-vertex-refused")
 	case 1: // the moved transaction in a new vertex
 		in := vhTransfer(8, "A", "B", spice.New(1, 0), nil, vhPeerAddr, 60)
 		in.Transaction.Hash = l.recs[0].v.Transaction.Hash
 		in.LeftParentHash, in.RightParentHash = l.recs[3].v.Hash, l.recs[3].v.Hash
 		err := l.ab.AddLeaf(context.Background(), in)
-		verifrt.Assert(err == ErrTrxInVertexAlreadyExists, "C07/resubmit/moved-transaction-refused-by-gossip")
+		verifrt.Assert(err == ErrTrxInVertexAlreadyExists, pfx+"/moved-transaction-refused-by-gossip")
 	case 2:
 		trx := l.recs[0].v.Transaction
 		trx.IssuerAddress = "A"
 		_, err := l.ab.CreateLeaf(context.Background(), &trx)
-		if err != nil {
+		if err != nil && verifrt.Native() {
 			verifrt.Trace("createleaf moved trx: " + err.Error())
 		}
-		verifrt.Assert(err == ErrTrxInVertexAlreadyExists, "C07/resubmit/moved-transaction-refused-by-proposal")
+		verifrt.Assert(err == ErrTrxInVertexAlreadyExists, pfx+"/moved-transaction-refused-by-proposal")
 	}
 	l.vhCheck("C03", "after-truncate")
-	verifrt.Reach("C07/resubmit/end")
+	verifrt.Reach(pfx+"/end")
 }
 
